@@ -50,6 +50,19 @@ fn profile_for(id: &str, tier: Tier, ctx: &Ctx) -> SProfile {
             p.p_hook_fail = 20;
             p.p_parser_error = 25;
         }
+        "C14" => {
+            p.p_retry = 45;
+            p.p_dup_names = 10;
+            p.p_pathless = 25;
+            p.p_parser_error = 12;
+            p.p_hook_fail = 15;
+            if ctx.is_known("C14/libtest/started-result-pairing/pathless-feature") || ctx.is_known("C14/json/feature-split/pathless-feature") {
+                p.exclude_pathless = true;
+            }
+            if ctx.is_known("C14/junit/malformed/cdata-terminator") {
+                p.exclude_cdata_end = true;
+            }
+        }
         "C01" => {
             p.p_retry = 55;
             p.p_hook_fail = 15;
@@ -279,6 +292,58 @@ fn run_c13(input: &Input, ctx: &Ctx, tier: Tier) -> CaseOut {
     }
 }
 
+fn run_c14(input: &Input, ctx: &Ctx, tier: Tier) -> CaseOut {
+    let mut p = profile_for("C14", tier, ctx);
+    p.decorate = true;
+    let mut ta = Tape::new(input.a.clone());
+    let seq = ta.chance(1, 3);
+    let o = super::c14::Opts { verbosity: ta.pick(3) as u8, show_output: ta.chance(1, 2), report_time: ta.chance(1, 3), junit_verbose: ta.chance(1, 3) };
+    let tree = gen_tree(&mut ta, &p);
+    let mut tb = Tape::new(input.b.clone());
+    let stream = linearise(&mut tb, &tree, seq, true);
+    crate::lab::driver::install_probe_hook();
+    let violations = super::c14::check_all(&stream, &o);
+    let keys: Vec<_> = stream.iter().map(decode).collect();
+    let retried = keys.iter().any(|k| k.retries.is_some_and(|r| r.0 > 0));
+    let pathless = tree.feats.iter().any(|f| f.src.path.is_none());
+    let markup = tree.feats.iter().any(|f| {
+        let has = |s: &str| s.contains('<') || s.contains('&') || s.contains('"');
+        has(&f.src.name) || f.src.scenarios.iter().chain(f.src.rules.iter().flat_map(|r| r.scenarios.iter())).any(|s| has(&s.name) || s.steps.iter().any(|x| has(&x.value)))
+    });
+    let nontrivial = retried && markup;
+    let mut labels = vec![];
+    if retried {
+        labels.push("retried_attempt");
+    }
+    if pathless {
+        labels.push("pathless_feature");
+    }
+    if markup {
+        labels.push("markup_in_names");
+    }
+    if keys.iter().any(|k| matches!(k.what, What::HookFailed(..))) {
+        labels.push("hook_failure");
+    }
+    if keys.iter().any(|k| matches!(k.what, What::ParserError(_))) {
+        labels.push("parser_error");
+    }
+    if nontrivial {
+        labels.push("nontrivial");
+    }
+    let desc: String = keys.iter().map(|k| format!("{:?};", k.what)).collect();
+    let names: String = tree.feats.iter().map(|f| f.src.name.clone()).collect();
+    CaseOut {
+        violations,
+        nontrivial,
+        hash: hash_str(&format!("{desc}{names}{o:?}")),
+        labels,
+        sample: ctx.want_sample.then(|| sample(&tree, &stream, json!({"options": format!("{o:?}"), "sequential": seq}))),
+        excluded: tree.excluded,
+        harness_error: None,
+        counters: vec![("events", stream.len() as u64), ("reports", 4)],
+    }
+}
+
 /// C01: alternates between RunnerLab runs (real runner -> recorded stream) and StreamLab streams.
 fn run_c01(input: &Input, ctx: &Ctx, tier: Tier) -> CaseOut {
     crate::lab::driver::install_probe_hook();
@@ -359,6 +424,7 @@ impl Property for StreamProp {
             "C11" => "StreamLab: tape a -> run tree (features/rules/scenarios/retry chains, per-attempt events from the reference attempt model over random outcomes, parser errors); tape b -> a random linearisation respecting happened-before (or the sequential one). Oracle runs after every handle_event call of Normalize<Recorder>. Non-trivial iff >=2 features whose events interleave (more feature switches than features) and >=1 rule or retried attempt. Distinct = hash of the decoded stream.".into(),
             "C12" => "StreamLab: normalised (sequential) streams with every outcome path, fed to Summarize<Recorder> (every 3rd case under Repeat::failed); independent recount. Non-trivial iff >=1 retried attempt and >=1 hook failure or skipped step. Distinct = hash of the decoded stream.".into(),
             "C13" => "StreamLab: arbitrary streams (sequential, interleaved, or rotated with a duplicated run-Finished) fed to each of 18 compiled nestings of FailOnSkipped/Repeat/Tee/Or/discard over recorder leaves with arbitrary Stats; a reference interpreter of the nesting's description predicts every leaf's exact sequence. Non-trivial iff the stream has a skipped step and a failed hook or parser error. Distinct = hash of stream + writes + leaf stats.".into(),
+            "C14" => "StreamLab: contract-abiding linearisations over features with decorated names (quotes, markup, non-ASCII, `]]>`), with/without path, same-named scenarios, retries, hook failures, parser errors; reporter options from the tape; output of Normalize<Basic|Libtest|Json|JUnit> parsed back by hand-written line / JSON / XML parsers into fact multisets compared with the stream's facts (both inclusions). Non-trivial iff a retried attempt and a name containing markup. Distinct = hash of stream + names + options.".into(),
             "C01" => "Half of the cases run the real runner (RunnerLab: features x outcome plans x configuration x schedule) and record its stream, half generate contract-abiding streams directly (StreamLab); the stream is fed to a tape-chosen subset of 13 built-in stats pipelines (Summarize<Normalize<Basic>>, Normalize<Libtest>, Tee, Or, each with/without FailOnSkipped/Repeat) and to Cucumber::run_and_exit over a replaying runner; verdict recomputed from the stream. Non-trivial iff the stream has a non-final failure, a hook failure, a skipped step or a parser error.".into(),
             _ => String::new(),
         }
@@ -386,6 +452,7 @@ impl Property for StreamProp {
             "C11" => 12_000,
             "C12" => 20_000,
             "C13" => 4_000,
+            "C14" => 4_000,
             "C01" => 4_000,
             _ => 1000,
         };
@@ -405,6 +472,7 @@ impl Property for StreamProp {
             "C12" => run_c12(input, ctx, ctx.tier),
             "C13" => run_c13(input, ctx, ctx.tier),
             "C01" => run_c01(input, ctx, ctx.tier),
+            "C14" => run_c14(input, ctx, ctx.tier),
             _ => CaseOut::default(),
         }
     }
